@@ -512,7 +512,11 @@ def precpass(chk, fx):
     # typed_term forwards
     for q, inner in (("ctpg::typed_term::get_precedence", "get_precedence"),
                      ("ctpg::typed_term::get_associativity", "get_associativity")):
-        for f in fx.need(q):
+        if not fx.fns(q):
+            # not instantiated although the witness grammars have typed terms with precedences: whoever fills the tables
+            # does not ask a typed term (reported below where the tables are filled); no verdict from this clause
+            chk.defer_incomplete("anchor function %s is not instantiated" % q)
+        for f in fx.fns(q):
             r = [n for n in walk(f.body) if n.get("k") == "ReturnStmt"]
             v = strip(r[0].get("value"), casts=True) if len(r) == 1 else None
             good = v is not None and v.get("k") == "CXXMemberCallExpr" and (v.get("callee") or {}).get("n") == inner \
